@@ -94,6 +94,9 @@ def build(tier: str) -> Cases:
         cs.whole(s, True, "corpus")
     for s in G.range_leak_sources():
         cs.whole(s, False, "generated")
+    for n, s in enumerate(G.hyphen_sources()):
+        if thorough or n % 3 == 0 or n < 60:
+            cs.whole(s, n % 2 == 1, "generated")
     # 2. grammar-generated templates
     gen = [G.g_template(r) for _ in range(2500 if thorough else 260)]
     gen = [g for g in gen if len(g) <= 400]
